@@ -25,6 +25,7 @@ def rule_writer(ctx):
     protocol.fixed_writer_padding_side_table(ctx, "O14.7", [cls.qualname for cls in field_classes(ctx.model)])
     # "a CID-bound writer": bound by the CID object or by the path of the CID
     protocol.validators_accept_cid_path_table(ctx, "O14.8")
+    protocol.writer_refusal_after_checks_table(ctx, "O14.9")
 
 
 def rule_validation_is_the_readers(ctx):
